@@ -136,9 +136,9 @@ NoQueryJson == [at |-> -1, since |-> -1, until |-> -1, tags |-> <<>>, etype |-> 
 QueryOf(q) == [at |-> q.at, since |-> q.since, until |-> q.until,
                tags |-> {<<q.tags[i][1], q.tags[i][2]>> : i \in 1..Len(q.tags)}, etype |-> q.etype]
 (* what is compared of a record: date, per entry its summary and minutes *)
-Shape(r) == <<FormatDate(r.date.ord, r.date.dashes), JoinStr(r.summary, "\n"),
+Shape(r) == <<FormatDate(r.date.ord, r.date.dashes), JoinStr(r.summary, "\n"), r.should, RecTotal(r) - r.should,
               [i \in 1..Len(r.entries) |-> <<JoinStr(r.entries[i].summary, "\n"), EntryMins(r.entries[i]), JsonTypeOf(r.entries[i])>>]>>
-JShape(j) == <<j.date, j.summary, [i \in 1..Len(j.entries) |-> <<j.entries[i].summary, j.entries[i].total_mins, j.entries[i].type>>]>>
+JShape(j) == <<j.date, j.summary, j.should_total_mins, j.diff_mins, [i \in 1..Len(j.entries) |-> <<j.entries[i].summary, j.entries[i].total_mins, j.entries[i].type>>]>>
 ShapesOf(R) == [k \in 1..Len(R) |-> Shape(R[k])]
 JShapesOf(js) == [k \in 1..Len(js) |-> JShape(js[k])]
 
